@@ -151,7 +151,9 @@ func (t *QuicTransport) forgetConn(c quic.Connection) {
 }
 
 func (t *QuicTransport) exchangeConn(ctx context.Context, payload []byte, c quic.Connection) (*dnsmsg.Msg, error) {
-	s, err := c.OpenStream()
+	// Wait if the peer's stream limit is reached. (OpenStream would fail at
+	// once and the retries would fail on the same connection again.)
+	s, err := c.OpenStreamSync(ctx)
 	if err != nil {
 		return nil, fmt.Errorf("failed to open stream, %w", err)
 	}
